@@ -4439,10 +4439,15 @@ void SoPlexBase<R>::getBasis(typename SPxSolverBase<R>::VarStatus rows[],
             cols[i] = SPxSolverBase<R>::ZERO;
       }
    }
-   // if the real LP is loaded, ask solver
+   // if the real LP is loaded, ask solver; query the statuses one by one, because SPxSolverBase::getBasis() also
+   // evaluates the solver status, which is not consistent with the basis status after the LP has been modified
    else if(_isRealLPLoaded)
    {
-      (void)_solver.getBasis(rows, cols);
+      for(int i = numRows() - 1; i >= 0; i--)
+         rows[i] = _solver.getBasisRowStatus(i);
+
+      for(int i = numCols() - 1; i >= 0; i--)
+         cols[i] = _solver.getBasisColStatus(i);
    }
    // if the real LP is not loaded, the basis is stored in the basis arrays of this class
    else
